@@ -346,7 +346,15 @@ def run_export(task):
             world.problem.initial_state_predicates = state.state_predicates
             world.problem.initial_state_fluents = state.state_fluents
             exporter = MultiAgentTrajectoryExporter(world.domain)
-            trips = exporter.parse_plan(world.problem, action_sequence=[joint_line(s) for s in plan])
+            if task.get("plan_file"):
+                # the public entry point with a plan FILE: one joint action per line (all-nop lines included)
+                path = lib.write_tmp("\n".join(joint_line(s) for s in plan) + ("\n" if task["plan_file"] == "newline" else ""), ".plan")
+                try:
+                    trips = exporter.parse_plan(world.problem, plan_path=path)
+                finally:
+                    path.unlink()
+            else:
+                trips = exporter.parse_plan(world.problem, action_sequence=[joint_line(s) for s in plan])
             lines = exporter.export(trips)
             return trips, lines, keys
 
@@ -510,8 +518,9 @@ def tasks_for(tier, seed):
         [[("sweep", ["o1"]), None, None], [("flag", ["o1"]), ("charge", ["o2"]), None]],
         [[None, None, None], [("flag", ["o1"]), None, None]],  # the trajectory opens with a step in which nobody acts
     ]
-    for p in plans:
+    for i, p in enumerate(plans):
         tasks.append({"kind": "export", "plan": p, "cap": 9})
+        tasks.append({"kind": "export", "plan": p, "cap": 9, "plan_file": "newline" if i % 2 else "no_newline"})
     for shape in ([[1, 1], None], [[2], [1, 1, 1]], [None, [1, 2], [1]], [[1]], [[1, 1], [1, 1]]):
         tasks.append({"kind": "regex", "shape": shape})
     return tasks
